@@ -62,8 +62,11 @@ def ns_options(n):
     return out
 
 
+TNAMES = ["Data", "Items", "Tv", "Basic", "Extra"]  # names ending in characters of ".avsc" (suffix stripping must be exact)
+
+
 def full(i, ns):
-    return (ns[i] + "." if ns[i] else "") + "T%d" % i
+    return (ns[i] + "." if ns[i] else "") + TNAMES[i]
 
 
 def realisations(es, ns, tier):
@@ -95,7 +98,7 @@ def realisations(es, ns, tier):
 def ref_name(i, j, ns, qualified):
     if qualified or ns[i] != ns[j]:
         return full(j, ns)
-    return "T%d" % j
+    return TNAMES[j]
 
 
 def use(kind, name):
@@ -111,7 +114,7 @@ def use(kind, name):
 def build_files(n, es, kinds, ns, real):
     files = {}
     for i in range(n):
-        d = {"type": kinds[i], "name": "T%d" % i}
+        d = {"type": kinds[i], "name": TNAMES[i]}
         if ns[i]:
             d["namespace"] = ns[i]
         if kinds[i] == "enum":
